@@ -22,6 +22,9 @@ type Request struct {
 	Stop      string `json:"stop,omitempty"`       // "", "preclosed", "async"
 	StopUs    int    `json:"stop_after_us,omitempty"`
 	NoOutput  bool   `json:"no_output,omitempty"`
+	SoftTime  int    `json:"soft_time_ms,omitempty"` // wall-clock soft limit: only legality is judged, never timing
+	Ponder    string `json:"ponder,omitempty"`       // "", "hit" (ponderhit after PonderUs), "miss" (never hit; a stop must end it)
+	PonderUs  int    `json:"ponderhit_after_us,omitempty"`
 }
 
 // Case is a replayable search case: engine configuration, the requests issued on that engine
@@ -50,12 +53,15 @@ func (q Request) options(stop <-chan struct{}) []search.Option {
 	if stop != nil {
 		o = append(o, search.WithStop(stop))
 	}
+	if q.SoftTime > 0 {
+		o = append(o, search.WithSoftTime(int64(q.SoftTime)))
+	}
 	return o
 }
 
 // Completed reports whether a search answering q was certainly not aborted.
 func (q Request) Completed(res *Result) bool {
-	if q.Stop != "" {
+	if q.Stop != "" || q.Ponder != "" {
 		return false
 	}
 	if q.Nodes == -1 {
@@ -87,6 +93,19 @@ func Exec(s *search.Search, b *board.Board, q Request) Result {
 		}(stop, q.StopUs)
 	}
 	opts := q.options(stop)
+	if q.Ponder != "" {
+		// limits are ignored while pondering; "hit" turns the search into a normal one later
+		ph := make(chan time.Time, 1)
+		opts = append(opts, search.WithPonderHit(ph))
+		if q.Ponder == "hit" {
+			go func(us int) {
+				if us > 0 {
+					time.Sleep(time.Duration(us) * time.Microsecond)
+				}
+				ph <- time.Now()
+			}(q.PonderUs)
+		}
+	}
 	if q.NoOutput {
 		var cnt search.Counters
 		opts = append(opts, search.WithOutput(nil), search.WithCounters(&cnt))
@@ -138,6 +157,12 @@ func (c *Campaign) one(cs *Case, root *Root, s *search.Search, q Request, lc *ev
 	if q.Stop != "" {
 		lc.C["searches_with_stop_signal"]++
 	}
+	if q.Ponder != "" {
+		lc.C["ponder_searches_"+q.Ponder]++
+	}
+	if q.SoftTime > 0 {
+		lc.C["searches_with_wall_clock_soft_limit"]++
+	}
 	if q.NoOutput {
 		lc.C["searches_on_tiny_tables_without_output"]++
 	}
@@ -150,7 +175,20 @@ func short(s board.VerifSnap) string {
 
 func randRequest(rng *rand.Rand, tt int) Request {
 	q := Request{Nodes: -1}
-	switch rng.IntN(8) {
+	switch rng.IntN(11) {
+	case 8: // wall-clock soft limit (only legality is judged)
+		q.SoftTime = 1 + rng.IntN(3)
+		q.Nodes = 50000
+	case 9: // ponder search that is hit: the node budget applies from then on
+		q.Ponder = "hit"
+		q.PonderUs = []int{0, 1, 10, 100, 1000}[rng.IntN(5)]
+		q.Nodes = 2000 + rng.IntN(20000)
+		q.Depth = 1 + rng.IntN(6)
+	case 10: // ponder miss: limits are ignored, only the stop signal ends the search
+		q.Ponder = "miss"
+		q.Stop = "async"
+		q.StopUs = []int{0, 10, 100, 1000, 3000}[rng.IntN(5)]
+		q.Nodes = 100
 	case 0, 1:
 		q.Depth = 1 + rng.IntN(6)
 		q.Nodes = 60000 // safety cap, normally not reached at these depths? it may: then the search is simply aborted
